@@ -467,20 +467,33 @@ def run(ctx: Ctx):
         "every run and proved equal to the model functions for all arguments (coq/gen_proofs/Arith_Utils_*.v)",
     ]
     ctx.proofs_or_violation()
-    try:  # the model's subdivide/generate_batches = the functions translated from the CURRENT source, by theorem
-        from ..arith_tie import run_tie
-        run_tie(ctx, ["subdivide_batches", "generate_batches"])
-    except Exception as e:  # noqa  (fail closed: the tie could not be established)
-        ctx.broken_obligation = "; ".join(filter(None, [ctx.broken_obligation, "arithmetic tie could not run: %r" % (e,)]))
-    try:  # round 3: the split block of SimpleBatcher.__init__ (float -> int glue included), translated from the CURRENT
-        # source, = the model's split_of_ratio for all inputs, by theorem (coq/gen_proofs/C09_Glue_*.v)
-        from ..c09_glue_tie import run_glue_tie
-        run_glue_tie(ctx)
-    except Exception as e:  # noqa  (fail closed)
-        ctx.broken_obligation = "; ".join(filter(None, [ctx.broken_obligation, "glue tie could not run: %r" % (e,)]))
-    check_batcher(ctx)
-    check_generate(ctx)
-    check_toy_recon(ctx)
+
+    def ties():
+        # (the two ties draw nothing from ctx.rng and write their own files: they run beside the correspondence phases)
+        try:  # the model's subdivide/generate_batches = the functions translated from the CURRENT source, by theorem
+            from ..arith_tie import run_tie
+            run_tie(ctx, ["subdivide_batches", "generate_batches"])
+        except Exception as e:  # noqa  (fail closed: the tie could not be established)
+            ctx.broken_obligation = "; ".join(filter(None, [ctx.broken_obligation, "arithmetic tie could not run: %r" % (e,)]))
+        try:  # round 3: the split block of SimpleBatcher.__init__ (float -> int glue included), translated from the
+            # CURRENT source, = the model's split_of_ratio for all inputs, by theorem (coq/gen_proofs/C09_Glue_*.v)
+            from ..c09_glue_tie import run_glue_tie
+            run_glue_tie(ctx)
+        except Exception as e:  # noqa  (fail closed)
+            ctx.broken_obligation = "; ".join(filter(None, [ctx.broken_obligation, "glue tie could not run: %r" % (e,)]))
+
+    import threading
+    # import the library in this thread first: two threads importing quantem at once trip over its circular imports
+    import quantem.diffractive_imaging.ptychography  # noqa: F401
+    import quantem.core.utils.utils  # noqa: F401
+    th = threading.Thread(target=ties, name="C09-ties")
+    th.start()
+    try:
+        check_batcher(ctx)
+        check_generate(ctx)
+        check_toy_recon(ctx)
+    finally:
+        th.join()
 
 
 def replay(ctx: Ctx, path):
@@ -512,6 +525,13 @@ def replay(ctx: Ctx, path):
         for key, what in bad:
             print("%s: %s" % (key, what))
         print("oracle:", "property violated on this case" if bad else "property holds on this case")
+        return 1 if bad else 0
+    if rp.get("kind") == "toy-sched" and "way" in rp:      # a run repeated after a reset, with scheduler settings
+        from .. import c09_toy
+        bad = c09_toy.replay_sched(rp)
+        for key, what, _, found in bad:
+            print("%s: %s%s" % (key, what, "" if found else "  [loss histories agree within tolerance]"))
+        print("oracle:", "property violated on this case" if any(b[3] for b in bad) else "property holds on this case")
         return 1 if bad else 0
     print("replay of kind %r: re-run ./check C09" % rp.get("kind"))
     return 0
